@@ -819,8 +819,12 @@ def faults_at(root, path):
         return out
     if 'bad_text' in m and not m.get('nil'):
         out.append('bad_text')
+    if m.get('nil'):
+        # a nilled element has no content at all: neither children nor character data
+        out += ['nil_child', 'nil_text']
     if m.get('elem_only'):
         out.append('extra_child')
+        out.append('stray_text')     # character data in element-only content (with or without children)
         if m.get('required_children'):
             out.append('missing_child')
         if 'swap' in m and len(n.children) > max(m['swap']):
@@ -843,6 +847,18 @@ def apply_fault(root, path, kind, rng):
     if kind == 'bad_text':
         n.text = m['bad_text']
         return r, path, f'text={m["bad_text"]!r}'
+    if kind == 'nil_child':
+        n.children.append(N(n.ns, rng.choice(('bogus', n.name)), text=rng.choice(('x', None)), meta={'bogus': True}))
+        return r, path, 'child element inside a nilled element'
+    if kind == 'nil_text':
+        n.text = 'x'
+        return r, path, 'character data inside a nilled element'
+    if kind == 'stray_text':
+        if n.children and rng.random() < 0.5:
+            rng.choice(n.children).tail = 'stray'
+        else:
+            n.text = 'stray'
+        return r, path, 'character data in element-only content'
     if kind == 'extra_child':
         pos = rng.randint(0, len(n.children))
         n.children.insert(pos, N(n.ns, 'bogus', text='x', meta={'bogus': True}))
